@@ -50,6 +50,16 @@ Contexts ==
                    N("annotation"), T("int"), Id, T(")"), T("{"), T("}"), N("annotation"), T("int"), Id, T(";"), T("}")>>,
     handler  |-> <<T("@"), Id, N("annotation"), T("class"), Id, T("{"), N("annotation"), N("annotation"),
                    N("methodDeclaration"), T("}")>>,
+    \* Spring mappings with derived values: the API scan reads the arguments of exactly these annotations
+    mapping1 |-> <<T("@"), T("RestController"), T("class"), Id, T("{"),
+                   T("@"), T("GetMapping"), T("("), N("elementValue"), T(")"), T("void"), Id, T("("), T(")"), T("{"), T("}"),
+                   T("@"), T("RequestMapping"), T("("), T("value"), T("="), N("elementValue"), T(","), T("method"), T("="), N("elementValue"), T(")"),
+                   T("void"), Id, T("("), N("formalParameterList"), T(")"), T("{"), T("}"), T("}")>>,
+    mapping2 |-> <<T("@"), T("RequestMapping"), T("("), N("elementValue"), T(")"), T("@"), T("RestController"), T("class"), Id, T("{"),
+                   T("@"), T("PostMapping"), T("("), N("elementValuePairs"), T(")"), N("methodDeclaration"),
+                   T("@"), T("PutMapping"), N("methodDeclaration"), T("}")>>,
+    mapping3 |-> <<T("@"), T("Controller"), T("@"), T("RequestMapping"), T("("), T("value"), T("="), N("elementValue"), T(")"), T("class"), Id, T("{"),
+                   T("@"), T("DeleteMapping"), T("("), T("value"), T("="), N("elementValue"), T(")"), N("methodDeclaration"), T("}")>>,
     params   |-> <<T("class"), Id, T("{"), T("void"), Id, N("formalParameters"), T("{"), T("}"),
                    T("interface"), Id, T("{"), T("void"), Id, N("formalParameters"), T(";"), T("}"), T("}")>>,
     types2   |-> <<T("class"), Id, T("{"), N("typeType"), Id, T(";"), N("typeType"), Id, T("("), T(")"), T("{"), T("}"), T("}")>>,
